@@ -18,7 +18,7 @@ func init() {
 	})
 	register(&Prop{
 		ID:    "C15",
-		Rules: []*Rule{rReport, scoped(rWalkMulti, "the report visitor", func(_ *core.Ctx, k string) bool { return strings.Contains(k, "visitAllMulti") }), rStackSlot, scoped(rOneParser, "GetReportableStackTrace", func(_ *core.Ctx, k string) bool { return containsAny(k, "GetReportableStackTrace", "convertPkgStack") }), rEffectReport, {Name: "R-TAINT/S5", Doc: "the S5 sub-class of R-TAINT: provenance of every value written into the Sentry message, exceptions and extras", Run: func(c *core.Ctx) { runTaintFiltered(c, func(s *Sink) bool { return s.Class == "S5" }) }},
+		Rules: []*Rule{rReport, scoped(rWalkMulti, "the report visitor", func(_ *core.Ctx, k string) bool { return strings.Contains(k, "visitAllMulti") }), rStackSlot, rStackParse, scoped(rOneParser, "GetReportableStackTrace", func(_ *core.Ctx, k string) bool { return containsAny(k, "GetReportableStackTrace", "convertPkgStack") }), rEffectReport, {Name: "R-TAINT/S5", Doc: "the S5 sub-class of R-TAINT: provenance of every value written into the Sentry message, exceptions and extras", Run: func(c *core.Ctx) { runTaintFiltered(c, func(s *Sink) bool { return s.Class == "S5" }) }},
 			{Name: "R-LOOP-EXITS", Doc: rLoopExits.Doc, Run: func(c *core.Ctx) { runLoopExits(c, map[string]bool{"report.visitAllMulti": true}) }}},
 		Explain: "Decides: nil gives (nil, nil); the layer walk visits every node of the tree; stacks and safe details are collected in lock-step per node; every exception's module is the error's domain; the message is laid out source location / redacted verbose rendering / composition; the 'error types' extra is the per-layer buffer; the stack re-parsing covers the same type keys as the one-line source; provenance of every event field (S5). " +
 			"NOT decided: counting/ordering relations over runtime lists (exactly one exception per stack, one type line per layer).",
@@ -57,14 +57,14 @@ func init() {
 	})
 	register(&Prop{
 		ID:    "C11",
-		Rules: []*Rule{rCodec, rRegType, rErrnoTable, rStackSlot, rTreeRec, rOneParser, rSiblingGuard},
+		Rules: []*Rule{rCodec, rRegType, rErrnoTable, rStackSlot, rStackParse, rTreeRec, rOneParser, rSiblingGuard},
 		Explain: "Decides, for every registered type key, that each annotation field has a wire slot that the writer fills from that same field and the reader restores into that same field (payload members, positional safe details, message), that decoders rebuild the key's own type (so flag types recognised by Go type survive), that errno predicates travel in matching pairs, and that the printed-stack slot is re-parsed for the same key set by both stack accessors. " +
 			"NOT decided: equality of re-parsed frames (text parsing), tag values rendered through ValueStr, OS predicates on foreign platforms beyond the pairing.",
 		Trusted: []string{"go/ssa", "gogo/protobuf marshalling of the payload messages"},
 	})
 	register(&Prop{
 		ID:    "C01",
-		Rules: []*Rule{scoped(rCodec, "fields that Error() reads, and the cause", codecTextFields), rOpaque, rTreeRec, rRegType, rSep, scoped(rWalkMulti, "the encoder walk", func(_ *core.Ctx, k string) bool { return containsAny(k, "EncodeError", "is a leaf for UnwrapOnce") }), rSiblingGuard},
+		Rules: []*Rule{scoped(rCodec, "fields that Error() reads, and the cause", codecTextFields), rOpaque, rTreeRec, rRegType, rSep, scoped(rShape, "the opaque types (what an unknowing process renders)", func(_ *core.Ctx, k string) bool { return strings.Contains(k, "opaque") }), scoped(rWalkMulti, "the encoder walk", func(_ *core.Ctx, k string) bool { return containsAny(k, "EncodeError", "is a leaf for UnwrapOnce") }), rSiblingGuard},
 		Explain: "Decides the structural necessary conditions of text/shape preservation: writer/reader slot agreement for every field that Error() reads (R-CODEC), verbatim keep-and-re-emit of message, details, message type and causes by unknowing processes (R-OPAQUE-TRANSPORT), cause/branch recursion on both sides in index order with no branch dropped for any count (R-TREE-RECURSION, R-WALK-MULTI), decoders rebuilding the key's type (no drift after hop 1), one separator constant removed exactly (R-SEP), and Error()/formatter shape agreement. " +
 			"NOT decided: equality of Error() strings for all messages (in particular suffix-matching ambiguity in extractPrefix for messages containing \": \"), protobuf marshalling itself.",
 		Trusted: []string{"go/ssa", "gogo/protobuf"},
